@@ -87,6 +87,11 @@ class Model:
                 return l.rstrip("_ui6432size") == str(val) or l == str(val)
             raise Unrecognised("constant pattern %s against %r" % (l, val))
         if k == "Leaf":
+            if isinstance(val, tuple) and len(val) == 3 and val[0] == "rec":
+                for s in pat["sub"]:
+                    if not self.bind(s["p"], dict(val[2])[s["f"]], env):
+                        return False
+                return True
             if isinstance(val, tuple) and not (len(val) == 2 and val[0] == "sr"):
                 for s in pat["sub"]:
                     if not self.bind(s["p"], val[s["i"]], env):
@@ -197,6 +202,8 @@ class Model:
             if adt == "Range" and len(n["fields"]) == 2:
                 fs = {f["name"]: self.ev(f["e"], env) for f in n["fields"]}
                 return ("range", fs["start"], fs["end"])
+            if n["fields"] and all(not f["name"].isdigit() for f in n["fields"]) and n["variant"] == adt:
+                return ("rec", adt, tuple(sorted((f["name"], self.ev(f["e"], env)) for f in n["fields"])))  # a plain struct: a record
             return ("ctor", adt, n["variant"], [self.ev(f["e"], env) for f in sorted(n["fields"], key=lambda f: f["name"])])
         if k == "Tuple":
             return tuple(self.ev(f, env) for f in n["fields"])
@@ -204,6 +211,8 @@ class Model:
             v = self.ev(n["arg"], env)
             if isinstance(v, tuple) and n["name"].isdigit():
                 return v[int(n["name"])]
+            if isinstance(v, tuple) and len(v) == 3 and v[0] == "rec" and n["name"] in dict(v[2]):
+                return dict(v[2])[n["name"]]
             raise Unrecognised("field %s of %r" % (n["name"], v))
         if k == "Match":
             v = self.ev(n["scrut"], env)
@@ -313,6 +322,29 @@ class Model:
                 v = self.ev(n["args"][0], env)
                 if isinstance(v, tuple) and v[0] in ("list", "vec"):
                     return ("enumerate", v[1])
+            # plain iterator adaptors over model lists
+            def _lst(v_):
+                return list(v_[1]) if isinstance(v_, tuple) and v_ and v_[0] in ("list", "vec") else None
+            if fn.endswith("iter::repeat") and len(n["args"]) == 1:
+                return ("repeat", self.ev(n["args"][0], env))
+            if fn.endswith(("Iterator::take", "Iterator::skip")) and len(n["args"]) == 2:
+                v, c = self.ev(n["args"][0], env), self.ev(n["args"][1], env)
+                if isinstance(c, int) and isinstance(v, tuple) and v and v[0] == "repeat" and fn.endswith("take"):
+                    return ("list", [v[1]] * c)
+                if isinstance(c, int) and _lst(v) is not None:
+                    return ("list", _lst(v)[:c] if fn.endswith("take") else _lst(v)[c:])
+            if fn.endswith(("Iterator::chain", "Iterator::zip")) and len(n["args"]) == 2:
+                a, b = _lst(self.ev(n["args"][0], env)), _lst(self.ev(n["args"][1], env))
+                if a is not None and b is not None:
+                    return ("list", a + b) if fn.endswith("chain") else ("list", [(x, y) for x, y in zip(a, b)])
+            if fn.endswith("Iterator::rev") and len(n["args"]) == 1:
+                a = _lst(self.ev(n["args"][0], env))
+                if a is not None:
+                    return ("list", a[::-1])
+            if fn.endswith("Iterator::map") and len(n["args"]) == 2 and peel(n["args"][1]).get("k") == "Zst" and str(peel(n["args"][1]).get("fn")).endswith(("Option::Some", "v1::Some", "option::Option::Some")):
+                a = _lst(self.ev(n["args"][0], env))
+                if a is not None:
+                    return ("list", [("some", x) for x in a])
             if fn.endswith("::with_capacity") or (fn.endswith("::new") and n.get("ty", "").startswith("std::vec::Vec<")):
                 return ("vec", [])
             if fn.endswith("::push") and len(n["args"]) == 2:
